@@ -1,8 +1,25 @@
-"""C15 — every encoder in the registration channels is inverted exactly by its decoder."""
-from lib import gN, gbool, bspec_in, bspec_obs, lcg_bytes
+"""C15 — every encoder in the registration channels is inverted exactly by its decoder.
 
-OPS = {"rt_req": 0, "rt_resp": 1, "rem_req": 2, "rem_resp": 3, "rt_txt": 4, "dec_txt": 5}
-HEADER = "From CJ Require Import Common.Base C15.Model C15.Run.\n"
+Families of cases (each: Go observation -> direct oracle -> Gallina term for the model comparison):
+  fmt    msgformat length framing, TXT RDATA                (pkg msgformat, dns)
+  name   NewName / WriteName / readName / TrimSuffix         (pkg dns)
+  req    chunks, base32 coding, send -> query name           (pkg requester; second stage: dns, responder)
+"""
+from concurrent.futures import ThreadPoolExecutor
+
+from lib import gN, gbool, bspec_in, bspec_obs, lcg_bytes, hexs
+
+HEADER = "From CJ Require Import Common.Base C15.Model C15.ModelName C15.Run.\n"
+DNSREG = "pkg/registrars/dns-registrar/"
+PKGS = {
+    "msgformat": (".", DNSREG + "msgformat", "c15/msgformat_driver_test.go", "TestVerifC15Msgformat"),
+    "dns": (".", DNSREG + "dns", "c15/dns_driver_test.go", "TestVerifC15Dns"),
+    "requester": (".", DNSREG + "requester", "c15/requester_driver_test.go", "TestVerifC15Requester"),
+    "responder": (".", DNSREG + "responder", "c15/responder_driver_test.go", "TestVerifC15Responder"),
+}
+FMT_OPS = {"rt_req": 0, "rt_resp": 1, "rem_req": 2, "rem_resp": 3, "rt_txt": 4, "dec_txt": 5}
+NAME_ERR = {"": 0, "zero": 1, "labellong": 2, "namelong": 3}
+RD_ERR = {"": 0, "eof": 1, "reserved": 2, "ptrs": 3, "namelong": 4, "trailing": 5}
 
 
 def rb(rng, n):
@@ -11,35 +28,64 @@ def rb(rng, n):
     return bytes(rng.getrandbits(8) for _ in range(n))
 
 
-def gen_cases(ctx):
-    rng = ctx.rng
-    quick = ctx.tier == "quick"
-    cases = []
+def gname(labels):
+    return "[" + "; ".join(hexs(l) for l in labels) + "]"
+
+
+def hexl(labels):
+    return [bytes(l).hex() for l in labels]
+
+
+def unhexl(labels):
+    return [bytes.fromhex(x) for x in (labels or [])]
+
+
+def wire_len(labels):
+    return sum(1 + len(l) for l in labels) + 1
+
+
+class Case:
+    __slots__ = ("fam", "pkg", "js", "aux", "res")
+
+    def __init__(self, fam, pkg, js, aux=None):
+        self.fam, self.pkg, self.js, self.aux, self.res = fam, pkg, js, aux, None
+
+
+# ------------------------------------------------------------------ generators
+def gen_fmt(ctx):
+    rng, quick = ctx.rng, ctx.tier == "quick"
+    out = []
+
+    def add(op, d):
+        out.append(Case("fmt", "dns" if "txt" in op else "msgformat", {"op": op, "data": d.hex()}, d))
     # encoders: every length 0 .. limit+2 (exhaustive in length, random content)
-    for n in list(range(0, 300)) + [510, 511, 512, 1000]:
-        cases.append(("rt_req", rb(rng, n)))
-    txt_lens = list(range(0, 20)) + list(range(250, 262)) + list(range(505, 515)) + [765, 766, 1020, 1021, 4000]
+    req_lens = list(range(0, 12)) + list(range(250, 262)) + [510, 511, 512, 1000]
+    if not quick:
+        req_lens = list(range(0, 300)) + [510, 511, 512, 1000]
+    for n in req_lens:
+        add("rt_req", rb(rng, n))
+    txt_lens = list(range(0, 6)) + list(range(253, 259)) + list(range(508, 513)) + [765, 766, 1020, 1021, 4000]
     if not quick:
         txt_lens = list(range(0, 1100)) + [4000, 65535, 65536]
     for n in txt_lens:
-        cases.append(("rt_txt", rb(rng, n)))
-    resp_lens = list(range(0, 12)) + [255, 256, 257, 1000, 65534, 65535, 65536, 65537, 70000]
+        add("rt_txt", rb(rng, n))
+    resp_lens = list(range(0, 4)) + [255, 256, 257, 1000, 65534, 65535, 65536, 65537, 70000]
     if not quick:
-        resp_lens += list(range(12, 255, 7)) + [65535 + 256, 131072]
+        resp_lens += list(range(4, 255, 7)) + [65535 + 256, 131072]
     for n in resp_lens:
-        cases.append(("rt_resp", rb(rng, n)))
+        add("rt_resp", rb(rng, n))
     # decoders on arbitrary / near-valid bytes
-    for _ in range(150 if quick else 1500):
+    for _ in range(40 if quick else 1500):
         n = rng.choice([0, 1, 2, 3, 5, 17, 255, 256, 257, 300])
         d = bytearray(rb(rng, n))
         if n and rng.random() < 0.6:   # mostly-valid: first byte(s) near the real length
             d[0] = max(0, min(255, n - 1 + rng.choice([-2, -1, 0, 0, 0, 1, 2])))
-        cases.append(("rem_req", bytes(d)))
+        add("rem_req", bytes(d))
         d2 = bytearray(rb(rng, n))
         if n >= 2 and rng.random() < 0.6:
             ln = max(0, n - 2 + rng.choice([-2, -1, 0, 0, 0, 1, 2]))
             d2[0], d2[1] = ln >> 8, ln & 255
-        cases.append(("rem_resp", bytes(d2)))
+        add("rem_resp", bytes(d2))
         # TXT: sequences of character-strings, sometimes cut short
         t = bytearray()
         for _ in range(rng.randrange(0, 4)):
@@ -47,63 +93,391 @@ def gen_cases(ctx):
             t += bytes([ln]) + rb(rng, ln)
         if rng.random() < 0.4 and t:
             t = t[:rng.randrange(len(t))]
-        cases.append(("dec_txt", bytes(t)))
-    for c in (ctx.replay or {}).get("cases", []):
-        cases.insert(0, (c["op"], bytes.fromhex(c["data"])))
-    return cases
+        add("dec_txt", bytes(t))
+    return out
+
+
+def rlabel(rng, n, ascii_only=False):
+    """a label of n bytes; mostly letters/digits, sometimes arbitrary bytes (dots, backslashes, upper case)"""
+    if ascii_only and rng.random() < 0.3:
+        return bytes(rng.choice([0x2e, 0x5c, 0x40, 0x5b, 0x60, 0x7b, 0, 0x7f, rng.getrandbits(7)]) for _ in range(n))
+    if ascii_only or rng.random() < 0.7:
+        return bytes(rng.choice(b"abcxyzABZ019-") for _ in range(n))
+    return bytes(rng.choice([0x2e, 0x5c, 0x78, 0, 255, rng.getrandbits(8)]) for _ in range(n))
+
+
+def split_labels(rng, total, maxlab=63):
+    """labels whose uncompressed wire length is exactly `total` (>= 1)"""
+    labels, rest = [], total - 1
+    while rest > 0:
+        if rest == 1:        # cannot place a label in 1 octet: fold into the previous label
+            if labels:
+                labels[-1] += b"q"
+            else:
+                labels.append(b"")
+            break
+        n = min(rest - 1, rng.choice([1, 1, 2, 5, 20, maxlab, maxlab, rng.randrange(1, maxlab + 1)]))
+        labels.append(rlabel(rng, n))
+        rest -= n + 1
+    return labels
+
+
+def gen_names(ctx):
+    rng, quick = ctx.rng, ctx.tier == "quick"
+    out = []
+
+    def name_rt(labels):
+        out.append(Case("name_rt", "dns", {"op": "name_rt", "labels": hexl(labels)}, labels))
+    # single labels of every length 0..70; label-length limit inside longer names
+    for n in (list(range(0, 4)) + list(range(60, 68))) if quick else range(0, 71):
+        name_rt([rlabel(rng, n)])
+        name_rt([b"ab", rlabel(rng, n), b"c"])
+    name_rt([])
+    # total wire length around the 255 limit, different label shapes
+    for total in (list(range(250, 261)) if quick else list(range(1, 262)) + [300, 400]):
+        for _ in range(2 if quick else 3):
+            name_rt(split_labels(rng, total))
+    name_rt([b"a"] * 127)
+    name_rt([b"a"] * 128)
+    name_rt([b"x" * 63] * 3 + [b"y" * 61])    # exactly 255
+    name_rt([b"x" * 63] * 3 + [b"y" * 62])    # 256
+    name_rt([b"x" * 63] * 4)
+    for _ in range(20 if quick else 300):      # zero-length / oversized label somewhere, repeated labels
+        labels = split_labels(rng, rng.randrange(2, 120))
+        k = rng.randrange(len(labels) + 1)
+        labels.insert(k, rng.choice([b"", rlabel(rng, 64), rlabel(rng, 65), rlabel(rng, 200), labels[0] if labels else b"a"]))
+        name_rt(labels)
+
+    # readName on arbitrary buffers: names, pointers (backward / forward / self / chains), reserved types, truncation
+    def read_name(buf, pos):
+        out.append(Case("read_name", "dns", {"op": "read_name", "data": bytes(buf).hex(), "pos": pos}, (bytes(buf), pos)))
+
+    def wire(labels):
+        return b"".join(bytes([len(l)]) + l for l in labels) + b"\0"
+
+    def ptr(off):
+        return bytes([0xC0 | (off >> 8) & 0x3F, off & 0xFF])
+    for depth in range(0, 15):                 # chains: name k = label ++ pointer to name k-1
+        buf, offs = bytearray(wire([b"a0"])), [0]
+        for k in range(1, depth + 1):
+            offs.append(len(buf))
+            buf += bytes([2]) + b"a%d" % (k % 10) + ptr(offs[k - 1])
+        read_name(buf, offs[-1])
+        read_name(buf + b"\x07trailer", offs[-1])
+        if depth > 0:
+            read_name(buf[:-1], offs[-1])       # pointer cut in half
+    for _ in range(60 if quick else 1500):
+        buf, starts = bytearray(rb(rng, rng.choice([0, 0, 1, 3, 12]))), []
+        for _ in range(rng.randrange(1, 6)):
+            starts.append(len(buf))
+            r = rng.random()
+            labels = split_labels(rng, rng.choice([1, 2, 5, 9, 40, 120, 254, 255, 256, 257]))
+            labels = [l for l in labels if l]
+            if r < 0.35:
+                buf += wire(labels)
+            elif r < 0.75:
+                tgt = rng.choice(starts + [len(buf), len(buf) + 3, rng.randrange(0, 0x4000)])
+                buf += wire(labels)[:-1] + ptr(tgt)
+            elif r < 0.85:
+                buf += wire(labels)[:-1] + bytes([rng.choice([0x40, 0x41, 0x7F, 0x80, 0xBF])]) + rb(rng, 2)
+            else:
+                w = wire(labels)
+                buf += w[:rng.randrange(len(w) + 1)]
+        for s in starts[-3:]:
+            read_name(buf, s)
+        if rng.random() < 0.3:
+            read_name(buf, rng.randrange(len(buf) + 3))
+    # names longer than 255 assembled through pointers
+    seg1 = wire([b"p" * 63, b"q" * 63])
+    buf = seg1 + wire([b"r" * 63, b"s" * 63])[:-1] + ptr(0)
+    read_name(buf, len(seg1))
+    buf = seg1 + wire([b"r" * 63, b"s" * 61])[:-1] + ptr(0)
+    read_name(buf, len(seg1))
+    buf = seg1 + wire([b"r" * 63, b"s" * 60])[:-1] + ptr(0)
+    read_name(buf, len(seg1))
+    read_name(ptr(0), 0)                        # self loop
+    read_name(ptr(2) + ptr(0), 0)               # two-cycle
+    read_name(b"", 0)
+    read_name(b"\0", 5)
+    for _ in range(30 if quick else 600):       # plain random bytes
+        n = rng.choice([1, 2, 3, 8, 30])
+        read_name(bytes(rng.choice([0, 1, 2, 3, 0xC0, 0xC0, 0xC1, 0x40, 0x80, rng.getrandbits(8)]) for _ in range(n)),
+                  rng.randrange(0, n + 1))
+
+    # TrimSuffix
+    def flipcase(l):
+        return bytes((c ^ 0x20) if (65 <= (c & ~0x20) <= 90 and rng.random() < 0.5) else c for c in l)
+    for _ in range(30 if quick else 400):
+        pre = [rlabel(rng, rng.randrange(1, 8), True) for _ in range(rng.randrange(0, 4))]
+        suf = [rlabel(rng, rng.randrange(1, 8), True) for _ in range(rng.randrange(0, 4))]
+        r = rng.random()
+        if r < 0.5:
+            n = pre + [flipcase(l) for l in suf]
+        elif r < 0.7:
+            n = pre + suf[1:]
+        elif r < 0.85 and suf:
+            bad = list(suf)
+            k = rng.randrange(len(bad))
+            bad[k] = bad[k][:-1] + bytes([bad[k][-1] ^ rng.choice([1, 0x20, 0x40, 0x20])])
+            n = pre + bad
+        else:
+            n = [rlabel(rng, rng.randrange(1, 5), True) for _ in range(rng.randrange(0, 5))]
+        out.append(Case("trim", "dns", {"op": "trim", "labels": hexl(n), "suffix": hexl(suf)}, (n, suf)))
+    return out
+
+
+DOMAINS = [[], [b"t", b"example", b"com"], [b"r"], [b"x" * 63, b"y" * 63], [b"a" * 40, b"b" * 40, b"c" * 40, b"d" * 20],
+           [b"Reg", b"Example", b"ORG"], [b"bad" * 22, b"com"], [b"", b"com"]]
+
+
+def gen_req(ctx):
+    rng, quick = ctx.rng, ctx.tier == "quick"
+    out = []
+    for n in (list(range(0, 8)) + [62, 63, 64, 125, 126, 127, 128, 189, 190, 400]) if quick else range(0, 401):
+        for k in ([63] if quick and n > 8 else [1, 2, 63, 64, 255]):
+            d = rb(rng, n)
+            out.append(Case("chunks", "requester", {"op": "chunks", "data": d.hex(), "n": k}, (d, k)))
+    for n in (list(range(0, 12)) + [39, 40, 41, 100, 255, 300]) if quick else range(0, 301):
+        d = rb(rng, n)
+        out.append(Case("b32", "requester", {"op": "b32", "data": d.hex()}, d))
+    for dom in DOMAINS:
+        lens = sorted(set(list(range(0, 4)) + list(range(100, 160, 1 if not quick else 4)) + [223, 224, 255, 256]))
+        # payload lengths around the point where the name stops fitting 255 octets for this domain
+        room = 255 - wire_len(dom)
+        edge = max(0, (room * 63 // 64) * 5 // 8)
+        lens = sorted(set(lens + list(range(max(0, edge - 4), edge + 5))))
+        for n in lens:
+            d = rb(rng, n)
+            out.append(Case("send", "requester", {"op": "send", "data": d.hex(), "domain": hexl(dom)}, (d, dom)))
+    return out
+
+
+# ------------------------------------------------------------------ running Go
+def run_go(ctx, cases):
+    """run every case's Go observation (one `go test` per package, packages in parallel); fills c.res"""
+    by = {}
+    for c in cases:
+        by.setdefault(c.pkg, []).append(c)
+
+    def one(pkg):
+        mod, path, drv, test = PKGS[pkg]
+        rc, out, res = ctx.go_inpkg(mod, path, {"zz_verif_driver_test.go": drv}, "^%s$" % test, [c.js for c in by[pkg]])
+        return pkg, rc, out, res
+    ok = True
+    with ThreadPoolExecutor(max_workers=len(by) or 1) as ex:
+        for pkg, rc, out, res in ex.map(one, list(by)):
+            if res is None or len(res) != len(by[pkg]):
+                ctx.broken("driver", "Go driver for %s did not produce results: %s" % (pkg, out[-800:]))
+                ok = False
+                continue
+            for c, r in zip(by[pkg], res):
+                c.res = r
+    return ok
+
+
+# ------------------------------------------------------------------ oracle + terms per family
+def short(d):
+    return d.hex() if len(d) < 600 else d[:16].hex() + "...(%d bytes)" % len(d)
+
+
+def post_fmt(ctx, c):
+    op, d, r = c.js["op"], c.aux, c.res
+    ctx.count((op, d), nontrivial=True, kind=op + ("/ok" if r["ok"] else "/err"))
+    if op.startswith("rt_"):
+        if r["ok"] and not (r["ok2"] and bytes.fromhex(r["out2"]) == d):
+            ctx.fail("roundtrip:%s/len>limit" % op, "decode(encode x) != x for %s with %d-byte payload "
+                     "(encoder accepted it, decoder returned %d bytes, ok=%s)" % (op, len(d), len(r["out2"]) // 2, r["ok2"]),
+                     {"fam": "fmt", "op": op, "data": short(d), "len": len(d), "encoded_prefix": r["out"][:16],
+                      "decoded_len": len(r["out2"]) // 2})
+        limit = {"rt_req": 255, "rt_resp": 65535}.get(op)
+        if limit is not None and (len(d) > limit) == r["ok"]:
+            ctx.fail("accepts:%s" % op, "%s %s a %d-byte payload (limit %d)" % (op, "accepted" if r["ok"] else "rejected", len(d), limit),
+                     {"fam": "fmt", "op": op, "len": len(d)})
+    return "CFmt %s %s (%s, %s, %s, %s)" % (gN(FMT_OPS[op]), bspec_in(d), gbool(r["ok"]), bspec_obs(bytes.fromhex(r["out"])),
+                                          gbool(r["ok2"]), bspec_obs(bytes.fromhex(r["out2"])))
+
+
+def representable(labels):
+    return all(1 <= len(l) <= 63 for l in labels) and wire_len(labels) <= 255
+
+
+def post_name_rt(ctx, c):
+    labels, r = c.aux, c.res
+    if r.get("panic"):
+        ctx.fail("name_rt/panic", "NewName/WriteName/readName panicked: %s" % r["panic"], {"fam": "name_rt", "labels": hexl(labels)})
+        return None
+    ctx.count(("name_rt", labels), kind="name_rt/" + (r["err"] or "ok"))
+    back = unhexl(r.get("labels"))
+    if r["ok"]:
+        if not representable(labels):
+            ctx.fail("name_rt/accepts-unrepresentable", "NewName accepted a name outside the wire format's limits "
+                     "(labels %s, wire length %d)" % ([len(l) for l in labels][:8], wire_len(labels)), {"fam": "name_rt", "labels": hexl(labels)})
+        elif not (r["ok2"] and back == labels and r["pos"] == len(r["out"]) // 2):
+            ctx.fail("name_rt/roundtrip", "readName(WriteName(n)) != n for a name NewName accepted (err=%s, pos=%s, wrote %d bytes)"
+                     % (r["err2"], r["pos"], len(r["out"]) // 2), {"fam": "name_rt", "labels": hexl(labels), "read": r.get("labels")})
+    elif representable(labels):
+        ctx.fail("name_rt/rejects-representable", "NewName rejected (%s) a name within the limits" % r["err"],
+                 {"fam": "name_rt", "labels": hexl(labels)})
+    if r["err"] not in NAME_ERR or r["err2"] not in RD_ERR:
+        ctx.broken("correspondence", "unexpected error class from the name codec: %r / %r" % (r["err"], r["err2"]),
+                   {"fam": "name_rt", "labels": hexl(labels)})
+        return None
+    return "CNameRt %s (%s, %s, %s, %s, %s)" % (gname(labels), gN(NAME_ERR[r["err"]]), hexs(bytes.fromhex(r["out"])),
+                                               gN(RD_ERR[r["err2"]]), gname(back), gN(r["pos"]))
+
+
+def post_read_name(ctx, c):
+    (buf, pos), r = c.aux, c.res
+    if r.get("panic"):
+        ctx.fail("read_name/panic", "readName panicked: %s" % r["panic"], {"fam": "read_name", "data": buf.hex(), "pos": pos})
+        return None
+    ctx.count(("read_name", buf, pos), kind="read_name/" + (r["err"] or "ok"))
+    if r["err"] not in RD_ERR:
+        ctx.broken("correspondence", "unexpected error class from readName: %r" % r["err"], {"fam": "read_name", "data": buf.hex(), "pos": pos})
+        return None
+    return "CReadName %s %s (%s, %s, %s)" % (hexs(buf), gN(pos), gN(RD_ERR[r["err"]]), gname(unhexl(r.get("labels"))), gN(r["pos"]))
+
+
+def post_trim(ctx, c):
+    (n, suf), r = c.aux, c.res
+    ctx.count(("trim", n, suf), kind="trim/" + ("ok" if r["ok"] else "no"))
+    pre = unhexl(r.get("labels"))
+    low = lambda ls: [bytes(l).lower() for l in ls]   # noqa: E731  (bytes.lower is ASCII-only, like Go's bytes.ToLower on ASCII)
+    expect = len(n) >= len(suf) and low(n[len(n) - len(suf):]) == low(suf)
+    if r["ok"] != expect or (r["ok"] and pre != n[:len(n) - len(suf)]):
+        ctx.fail("trim", "TrimSuffix(prefix ++ suffix, suffix) did not return the prefix", {"fam": "trim", "labels": hexl(n), "suffix": hexl(suf)})
+    return "CTrim %s %s %s %s" % (gname(n), gname(suf), gbool(r["ok"]), gname(pre))
+
+
+def post_chunks(ctx, c):
+    (d, k), r = c.aux, c.res
+    ch = unhexl(r.get("chunks"))
+    ctx.count(("chunks", d, k), kind="chunks/%d" % k)
+    if b"".join(ch) != d or any(not (1 <= len(x) <= k) for x in ch) or any(len(x) != k for x in ch[:-1]):
+        ctx.fail("chunks", "chunks(p, %d) is not a greedy split of p into non-empty pieces" % k, {"fam": "chunks", "data": short(d), "n": k})
+    return "CChunks %s %s %s" % (bspec_in(d), gN(k), gname(ch))
+
+
+def post_b32(ctx, c):
+    d, r = c.aux, c.res
+    ctx.count(("b32", d), kind="b32")
+    if not (r["ok2"] and bytes.fromhex(r["out2"]) == d):
+        ctx.fail("b32-hypothesis", "base32 decode(upper(lower(encode p))) != p (section hypothesis b32_roundtrip is false for the real coding)",
+                 {"fam": "b32", "data": short(d)})
+    return None
+
+
+TERMS = {"fmt": post_fmt, "name_rt": post_name_rt, "read_name": post_read_name, "trim": post_trim,
+         "chunks": post_chunks, "b32": post_b32}
+
+
+def replay_cases(ctx):
+    out = []
+    for f in (ctx.replay or {}).get("failures", []) + [{"case": c} for c in (ctx.replay or {}).get("cases", [])]:
+        c = f.get("case") or {}
+        fam = c.get("fam", "fmt" if "op" in c else None)
+        try:
+            if fam == "fmt" and "..." not in c.get("data", ""):
+                d = bytes.fromhex(c["data"])
+                out.append(Case("fmt", "dns" if "txt" in c["op"] else "msgformat", {"op": c["op"], "data": d.hex()}, d))
+            elif fam == "name_rt":
+                ls = unhexl(c["labels"])
+                out.append(Case("name_rt", "dns", {"op": "name_rt", "labels": hexl(ls)}, ls))
+            elif fam == "read_name":
+                b = bytes.fromhex(c["data"])
+                out.append(Case("read_name", "dns", {"op": "read_name", "data": b.hex(), "pos": c["pos"]}, (b, c["pos"])))
+            elif fam == "trim":
+                n, s = unhexl(c["labels"]), unhexl(c["suffix"])
+                out.append(Case("trim", "dns", {"op": "trim", "labels": hexl(n), "suffix": hexl(s)}, (n, s)))
+        except (KeyError, ValueError):
+            pass
+    return out
 
 
 def run(ctx):
     ctx.assumptions += [
-        "base32, X25519, Elligator, AES, noise are not part of this slice of the model",
-        "the Go in-package driver, the case generator and the JSON->Gallina emitter are trusted",
+        "base32 is an abstract coding with the section hypothesis dec(upper(lower(enc p))) = p (tested on the real coding on every run)",
+        "X25519, Elligator, AES, noise are section variables with the stated algebraic laws (not proved)",
+        "the Go in-package drivers, the case generators and the JSON->Gallina emitter are trusted",
     ]
     ctx.cov["trusted_base"] = [
         "Coq 8.16.1 kernel (coqc; coqchk in the thorough tier); vm_compute used for evaluating the model on cases; no native_compute",
         "no axioms: every theorem prints 'Closed under the global context'",
-        "hand-written model coq/C15/Model.v tied to the code by the correspondence run (driver + emitter trusted)",
+        "hand-written models coq/C15/Model*.v tied to the code by the correspondence run (drivers + emitter trusted)",
     ]
-    ctx.cov["rule"] = ("encoders on every payload length 0..limit+2 with random content, decoders on random and "
-                       "near-valid byte strings; a case is non-trivial if it is hash-distinct and either "
-                       "succeeds or exercises a distinct rejection (counted per op)")
+    ctx.cov["rule"] = ("encoders on every payload/label/name length 0..limit+2 with random content, decoders on random and "
+                       "near-valid byte strings (pointer chains, loops, truncation); a case is non-trivial if it is hash-distinct "
+                       "and either succeeds or exercises a distinct rejection (counted per op)")
     ctx.coq_props()
-    cases = gen_cases(ctx)
-    by_pkg = {"msgformat": [], "dns": []}
-    for i, (op, d) in enumerate(cases):
-        by_pkg["dns" if "txt" in op else "msgformat"].append(i)
-    results = [None] * len(cases)
-    for pkg, idxs in by_pkg.items():
-        js = [{"op": cases[i][0], "data": cases[i][1].hex()} for i in idxs]
-        test = "TestVerifC15Msgformat" if pkg == "msgformat" else "TestVerifC15Dns"
-        rc, out, res = ctx.go_inpkg(".", "pkg/registrars/dns-registrar/" + pkg,
-                                    {"zz_verif_driver_test.go": "c15/%s_driver_test.go" % pkg},
-                                    "^%s$" % test, js)
-        if res is None or len(res) != len(idxs):
-            ctx.broken("driver", "Go driver for %s did not produce results: %s" % (pkg, out[-800:]))
-            return
-        for i, r in zip(idxs, res):
-            results[i] = r
-    # direct oracle on the implementation: decode(encode x) = x, or encode rejected; never silently altered
-    terms = []
-    for (op, d), r in zip(cases, results):
-        ctx.count((op, d), nontrivial=True, kind=op + ("/ok" if r["ok"] else "/err"))
-        if op.startswith("rt_"):
-            if r["ok"] and not (r["ok2"] and bytes.fromhex(r["out2"]) == d):
-                key = "%s/len=%d" % (op, len(d)) if len(d) in (256, 65536) else "%s/other" % op
-                ctx.fail("roundtrip:" + ("%s/len>limit" % op), "decode(encode x) != x for %s with %d-byte payload "
-                         "(encoder accepted it, decoder returned %d bytes, ok=%s)" % (op, len(d), len(r["out2"]) // 2, r["ok2"]),
-                         {"op": op, "data": d.hex() if len(d) < 600 else d[:16].hex() + "...(%d bytes)" % len(d),
-                          "len": len(d), "encoded_prefix": r["out"][:16], "decoded_len": len(r["out2"]) // 2})
-        terms.append("(%s, %s, (%s, %s, %s, %s))" % (gN(OPS[op]), bspec_in(d), gbool(r["ok"]), bspec_obs(bytes.fromhex(r["out"])),
-                                                     gbool(r["ok2"]), bspec_obs(bytes.fromhex(r["out2"]))))
-    ctx.sample({"op": cases[3][0], "data": cases[3][1].hex(), "observed": results[3]})
-    ctx.sample({"op": cases[-1][0], "data": cases[-1][1].hex(), "observed": results[-1]})
-    ctx.require_kinds(["rt_req/ok", "rt_txt/ok", "rt_resp/ok", "rem_req/ok", "rem_req/err", "rem_resp/ok",
-                       "rem_resp/err", "dec_txt/ok", "dec_txt/err"])
-    mm = ctx.coq_mismatches("fmt", HEADER, terms, "chk", shard=120, need_vo=["C15/Run.vo"])
+    rc, out = ctx.coq_make(["C15/Examples.vo"])
+    if rc != 0:
+        ctx.broken("examples", "non-vacuity examples (C15/Examples.v) no longer check: " + out[-500:])
+    cases = replay_cases(ctx) + gen_fmt(ctx) + gen_names(ctx) + gen_req(ctx)
+    if not run_go(ctx, cases):
+        return
+    # second stage: what the requester sent is parsed by the dns package and answered by the responder
+    sends = [c for c in cases if c.fam == "send"]
+    stage2 = []
+    for c in sends:
+        if c.res["ok"] and c.res["out"]:
+            stage2.append(Case("send_dec", "dns", {"op": "msg_dec", "data": c.res["out"]}, c))
+            stage2.append(Case("send_query", "responder", {"op": "query", "data": c.res["out"], "domain": hexl(c.aux[1])}, c))
+    if stage2 and not run_go(ctx, stage2):
+        return
+    b32 = {c.aux: bytes.fromhex(c.res["out"]) for c in cases if c.fam == "b32"}
+    terms, tcases = [], []
+    for c in cases:
+        if c.fam in TERMS:
+            t = TERMS[c.fam](ctx, c)
+            if t:
+                terms.append(t)
+                tcases.append(c)
+    # send: requester -> wire -> (dns parse, responder payload)
+    import base64
+    dec = {id(c.aux): c for c in stage2 if c.fam == "send_dec"}
+    qry = {id(c.aux): c for c in stage2 if c.fam == "send_query"}
+    for c in sends:
+        (d, dom), r = c.aux, c.res
+        if r.get("panic"):
+            ctx.fail("send/panic", "send panicked: %s" % r["panic"], {"fam": "send", "data": d.hex(), "domain": hexl(dom)})
+            continue
+        enc = base64.b32encode(d).rstrip(b"=").lower()     # the coding, as the harness computes it (compared with Go's below)
+        labels = [enc[i:i + 63] for i in range(0, len(enc), 63)] + list(dom)
+        ctx.count(("send", d, tuple(dom)), kind="send/" + ("ok" if r["ok"] else "err"))
+        if r["ok"] != representable(labels):
+            ctx.fail("send/representable", "send %s a payload whose query name is %s (wire length %d)" % (
+                "accepted" if r["ok"] else "rejected", "representable" if representable(labels) else "not representable",
+                wire_len(labels)), {"fam": "send", "data": d.hex(), "domain": hexl(dom)})
+        qn, code = [], 0
+        if r["ok"]:
+            dc, qc = dec[id(c)].res, qry[id(c)].res
+            if not dc["ok"] or len(dc["msg"]["q"]) != 1:
+                ctx.fail("send/unparsable", "the query written by send does not parse (%s)" % dc["err"], {"fam": "send", "data": d.hex(), "domain": hexl(dom)})
+                continue
+            qn = unhexl(dc["msg"]["q"][0]["name"])
+            if not (qc["ok"] and qc["haspay"] and bytes.fromhex(qc["out"]) == d):
+                ctx.fail("send/roundtrip", "responder.responseFor did not recover the payload that requester.send encoded "
+                         "(flags=%#x, payload=%s)" % (qc["flags"], qc["out"][:40]), {"fam": "send", "data": d.hex(), "domain": hexl(dom)})
+        else:
+            code = 3 if "longer than 255" in r["err"] else 2 if "label longer" in r["err"] else 1 if "zero-length" in r["err"] else 98
+        terms.append("CSendName %s %s %s %s" % (hexs(enc), gname(dom), gN(code), gname(qn)))
+        tcases.append(c)
+    for d, e in b32.items():
+        if base64.b32encode(d).rstrip(b"=").lower() != e:
+            ctx.broken("harness", "the harness' base32 differs from the requester's coding", {"fam": "b32", "data": d.hex()})
+            break
+    for c in cases[:1] + cases[len(cases) // 2: len(cases) // 2 + 1] + cases[-1:]:
+        ctx.sample({"fam": c.fam, "go": {k: (v if not isinstance(v, str) or len(v) < 200 else v[:200] + "...") for k, v in c.js.items()},
+                    "observed": {k: (v if not isinstance(v, str) or len(v) < 200 else v[:200] + "...") for k, v in c.res.items()}})
+    ctx.require_kinds(["rt_req/ok", "rt_req/err", "rt_txt/ok", "rt_resp/ok", "rt_resp/err", "rem_req/ok", "rem_req/err", "rem_resp/ok",
+                       "rem_resp/err", "dec_txt/ok", "dec_txt/err",
+                       "name_rt/ok", "name_rt/zero", "name_rt/labellong", "name_rt/namelong",
+                       "read_name/ok", "read_name/eof", "read_name/reserved", "read_name/ptrs", "read_name/namelong",
+                       "trim/ok", "trim/no", "chunks/63", "b32", "send/ok", "send/err"])
+    mm = ctx.coq_mismatches("all", HEADER, terms, "chk", shard=max(60, (len(terms) + 11) // 12), need_vo=["C15/Run.vo"])
     if mm:
         ctx.cov["mismatches"] += len(mm)
-        i = mm[0]
-        ctx.broken("correspondence", "model C15.Run.model and the implementation disagree on %d case(s); first: op=%s len=%d"
-                   % (len(mm), cases[i][0], len(cases[i][1])),
-                   {"op": cases[i][0], "data": cases[i][1].hex()[:2000], "observed": results[i]})
+        c = tcases[mm[0]]
+        ctx.broken("correspondence", "model (C15.Run.chk) and the implementation disagree on %d case(s); first: family %s"
+                   % (len(mm), c.fam), {"fam": c.fam, "go": {k: (v if not isinstance(v, str) else v[:2000]) for k, v in c.js.items()},
+                                        "observed": c.res, "term": terms[mm[0]][:3000]})
